@@ -212,7 +212,7 @@ impl Table {
     }
 
     /// Creates a new partition from current buffer and returns it.
-    pub(crate) fn batch(&self) -> Option<Arc<Partition>> {
+    pub(crate) fn batch(&self) -> Option<(Arc<Partition>, Vec<Arc<Column>>)> {
         let mut buffer = self.frozen_buffer.lock().unwrap();
         if buffer.len() == 0 {
             return None;
@@ -229,6 +229,13 @@ impl Table {
             self.lru.clone(),
             partition_offset,
         );
+        // Collect the columns before the partition becomes reachable: once it is in the partition
+        // map and the lru, queries may add placeholder handles and eviction may empty handles.
+        let columns: Vec<Arc<Column>> = new_partition
+            .clone_column_handles()
+            .into_iter()
+            .filter_map(|handle| handle.try_get().as_ref().cloned())
+            .collect();
         let arc_partition;
         {
             let mut partitions = self.partitions.write().unwrap();
@@ -238,7 +245,7 @@ impl Table {
         for (id, column) in keys {
             self.lru.put(ColumnLocator::new(self.name(), id, &column));
         }
-        Some(arc_partition)
+        Some((arc_partition, columns))
     }
 
     /// Determines if partitions should be compacted. If so, returns the maximal list of partitions to compact.
